@@ -1078,7 +1078,24 @@ class Lowerer:
 
     def _vardecl(self, d, ind):
         if d.get('storageClass') == 'static' or d.get('tls'):
-            raise Unsupported('static local variable %s' % d.get('name'))
+            # a function-local static (or thread_local) object of scalar type with a constant initialiser: kept as a C static, and reported
+            # like a global (one object per process / per thread, shared by every call and every instance)
+            t = d['type']
+            if self.is_record_type(t) or self._strip_cv(t['qualType']).endswith(('&', ']')): raise Unsupported('static local variable %s of non-scalar type' % d.get('name'))
+            init = None
+            for c in d.get('inner', []):
+                k = c.get('kind', '')
+                if not (k.endswith('Attr') or k.endswith('Type') or k.endswith('Decl')): init = c
+            dynamic = init is not None and self._constval(self.strip(init)) is None and self.strip(init).get('kind') not in ('IntegerLiteral', 'CXXBoolLiteralExpr')
+            name = self._local(d)
+            const = bool(re.search(r'\bconst\b', t['qualType'])) and not dynamic
+            self.meta.setdefault('globals', []).append({'cname': '%s::%s' % (self._curname, name), 'qualified': '%s::%s (function-local static)' % (self._curq, d.get('name')), 'storage': 'static', 'tls': bool(d.get('tls')),
+                                                        'dynamic_init': dynamic, 'type': t['qualType'], 'line': d.get('loc', {}).get('_line') or d.get('range', {}).get('begin', {}).get('_line'), 'file': d.get('loc', {}).get('_file')})
+            tl = '_Thread_local ' if d.get('tls') else ''
+            if dynamic:
+                # initialised by the first call that reaches the declaration (once per process, or per thread for thread_local)
+                return '%s%sstatic %s %s; %sstatic char %s__init; if (!%s__init) { %s = %s; %s__init = 1; }\n' % (ind, tl, self.ctype(t), name, tl, name, name, name, self.expr(init), name)
+            return '%s%sstatic %s%s %s%s;\n' % (ind, tl, 'const ' if const else '', self.ctype(t), name, (' = ' + self.expr(init)) if init is not None else '')
         name = self._local(d)
         t = d['type']
         if d.get('name') in self.ghost_buffers and self._curq in self.ghost_buffers[d['name']]:
